@@ -2631,8 +2631,10 @@ def register_fields_and_surfaces(reg):
                 want = Orientation.fromEuler(*pe) * Orientation.fromEuler(y, p, r)
                 if not o.orientation.approxEq(want):
                     return f"OrientedPoint with parentOrientation {pe}, yaw/pitch/roll {(y, p, r)}: orientation {o.orientation}, expected {want}"
-                if not _angle_close(o.heading, want.yaw, 1e-6):
-                    return f"OrientedPoint with parentOrientation {pe}, yaw/pitch/roll {(y, p, r)}: heading {o.heading}, but the yaw of its global orientation is {want.yaw}"
+                # heading must be the yaw of SOME Euler triple of the global orientation (the canonical one, or -- for a global
+                # parent -- the given local angles themselves, which need not be in canonical range)
+                if not any(Orientation.fromEuler(o.heading, pp, rr).approxEq(want, 1e-9) for pp, rr in ((want.pitch, want.roll), (p, r))):
+                    return f"OrientedPoint with parentOrientation {pe}, yaw/pitch/roll {(y, p, r)}: heading {o.heading} is not a yaw of its global orientation {want} (yaw {want.yaw})"
             return None
 
         reg.add(
